@@ -203,9 +203,13 @@ class TableSection(Section):
         table.set_style(TableStyle.MARKDOWN)
         for key, values in self.table.items():
             # replace \n with <br /> (html new line tag) so that line breaks are
-            # not converted into new rows with PrettyTable.
-            values = [str(value).replace("\n", "<br />") for value in values]
-            table.add_column(key, values)
+            # not converted into new rows with PrettyTable, and escape "|" so
+            # that it does not start a new markdown table cell.
+            values = [
+                str(value).replace("\n", "<br />").replace("|", "\\|")
+                for value in values
+            ]
+            table.add_column(str(key).replace("|", "\\|"), values)
 
         table = table.get_string()
 
